@@ -59,7 +59,7 @@ def drain (q : Quirks) (st : DSt) (it : Iter) : Nat → DSt × Iter
   | 0 => (st, it)
   | fuel + 1 =>
     if it.status != 0 then (st, it)
-    else let r := advance q false schema schema st it; drain q r.1 r.2 fuel
+    else let r := advance q false true schema schema st it; drain q r.1 r.2 fuel
 
 /-- right after a consumed evaluation: the wrappers of the registry whose instance is dead (the evaluation swept
 before it read its domain, so there is none unless an instance died while it ran) -/
